@@ -79,7 +79,7 @@ def gen(rng, tier, i):
     use_inject = eh in ('ok',) and rng.random() < 0.6
     if use_inject and rng.random() < 0.5:
         p.opt('fault_exempt_master', 1)
-    enabled = set(k for k in ('tick', 'connect', 'cmd', 'partial', 'close', 'bombcmd', 'hb', 'co', 'inputto', 'vobj', 'stall', 'quit', 'limit', 'nf')
+    enabled = set(k for k in ('tick', 'connect', 'cmd', 'partial', 'close', 'bombcmd', 'hb', 'co', 'inputto', 'vobj', 'stall', 'quit', 'limit', 'nf', 'exec')
                   if rng.random() < 0.7)
     enabled.add('tick')
     if has_net: enabled.add('connect')
@@ -190,6 +190,11 @@ def gen(rng, tier, i):
             how = rng.choice(('quit', 'rmi me', 'dest me'))
             if c != 'con': conns[c]['alive'] = False
             p.cycle(say(c, 'do ' + how))
+        elif a == 'exec':
+            # the connection moves to a fresh user object (exec efun), the old body is destructed: the connection record
+            # the backend and comm.c are working on changes its object in the middle of a command
+            c = rng.choice(t)
+            p.cycle(say(c, 'do exec dest' + (';' + bomb_script('cmd') if rng.random() < 0.3 else '')))
         elif a == 'nf':
             # a failing command whose notify_fail() function runs a script (the driver calls it after every action said no)
             c = rng.choice(t)
